@@ -17,7 +17,14 @@ import contextlib
 import itertools
 import json
 
-from canon_schema import canon, dump_schema
+from canon_schema import dump_schema
+
+
+def canon(d):
+    """Canonical text of a dump that keeps CODE POINTS apart: with ensure_ascii an astral character and the two lone
+    surrogates its escape is (wrongly) decoded into would both be written as the same \\ud83d\\ude00."""
+    return json.dumps(d, sort_keys=True, ensure_ascii=False)
+
 from common import CORPUS
 from gen import sdl
 
@@ -407,6 +414,49 @@ def run_extend(ctx, batch):
             ctx.stat("extend_schema:order-dependent")
 
 
+def run_validation_rules(ctx, batch):
+    """Documents whose ONLY defect is a schema-VALIDATION rule (validation enabled): `build_schema` must reject them
+    with a library error — a build that succeeds on an invalid document is a C11 failure. The labelled-violation
+    injectors are C13's (`corr/C13.py: INJECTIONS`; c13 owns the rule model)."""
+    try:
+        from corr import C13
+    except Exception as e:  # noqa
+        ctx.notes.append("C13 injectors not importable (%s): validation-rule documents skipped" % type(e).__name__)
+        return
+    from gen import schema as gs
+    per = ctx.n(4, 20)
+    for inj in C13.INJECTIONS:
+        if inj.code_only:
+            continue
+        done = tries = 0
+        # the implementation rules have many near-miss variants (nullability / wrapper depth): more cases
+        per_inj = per * 4 if inj.name.startswith("iface_") else per
+        while done < per_inj and tries < per_inj * 5 and ctx.time_left() > 12:
+            tries += 1
+            base = C13.base_schema(ctx.rng, ctx.rng.choice([1, 2]))
+            try:
+                d, labels, code_only = C13.apply_injections(ctx.rng, base, 1, only=inj)
+            except Exception:  # noqa  (an injector that does not apply to this base)
+                continue
+            if not labels or code_only or labels[0][1] is None:
+                continue       # not applicable / not expressible in SDL / the change happens to be valid
+            try:
+                text = gs.to_sdl(d, descriptions=False)
+            except Exception:  # noqa
+                continue
+            done += 1
+            real = real_build(text)
+            ctx.count()
+            ctx.nontrivial(text)
+            ctx.stat("validation-rule:%s:%s" % (inj.name, real[2] if real[0] == "rej" else real[0]))
+            detail = {"sdl": text, "label": "validation:" + inj.name, "rule": labels[0][1], "flags": {}}
+            if real[0] == "ok":
+                ctx.fail("invalid-accepted:validation:%s:%s" % (inj.name, labels[0][1]),
+                         "a document violating the schema validation rule %s (%s) is built" % (labels[0][1], inj.name), detail)
+            elif real[0] == "exc":
+                ctx.fail("%s:validation:%s" % (real[1], inj.name), "invalid document (%s) raises %s" % (inj.name, real[1]), detail)
+
+
 def run_invalid(ctx, batch):
     n = ctx.n(6, 30)
     for label in sdl.INVALID_LABELS:
@@ -553,6 +603,7 @@ def run(ctx):
     run_generated(ctx, batch)
     run_extend(ctx, batch)
     run_invalid(ctx, batch)
+    run_validation_rules(ctx, batch)
     run_model(ctx, batch)
     ctx.extra["documents_sent_to_model"] = len(batch.cases)
 
